@@ -37,8 +37,10 @@ type SimBroker struct {
 	// OnDeliver is called when a MSG/HMSG is handed to a client connection.
 	OnDeliver func(c *BrokerConn, subject string, data []byte)
 	// DeliveryDelay lets a harness delay an outbound item (tape-chosen).
-	DeliveryDelay func(c *BrokerConn, isMsg bool) time.Duration
+	DeliveryDelay                      func(c *BrokerConn, isMsg bool) time.Duration
 	Published, Delivered, NoResponders int
+	// MaxPayload is announced in INFO (0 = 1 MiB); nats.go refuses larger publishes client-side.
+	MaxPayload int
 }
 
 type bsub struct {
@@ -62,10 +64,10 @@ type bcmd struct {
 }
 
 type outItem struct {
-	b     []byte
-	isMsg bool
+	b       []byte
+	isMsg   bool
 	subject string
-	data  []byte
+	data    []byte
 }
 
 // BrokerConn is the broker's end of one client connection.
@@ -104,8 +106,15 @@ func (d *brokerDialer) Dial(network, address string) (net.Conn, error) {
 	b.mu.Unlock()
 	go c.writer()
 	go c.reader()
-	c.enqueueOut(outItem{b: []byte(fmt.Sprintf(`INFO {"server_id":"SIM","server_name":"sim","version":"2.10.11","proto":1,"go":"go","host":"sim","port":4222,"headers":true,"max_payload":1048576,"client_id":%d}`+"\r\n", c.ID))})
+	c.enqueueOut(outItem{b: []byte(fmt.Sprintf(`INFO {"server_id":"SIM","server_name":"sim","version":"2.10.11","proto":1,"go":"go","host":"sim","port":4222,"headers":true,"max_payload":%d,"client_id":%d}`+"\r\n", b.maxPayload(), c.ID))})
 	return cli, nil
+}
+
+func (b *SimBroker) maxPayload() int {
+	if b.MaxPayload > 0 {
+		return b.MaxPayload
+	}
+	return 1048576
 }
 
 // Connect returns a real nats.go connection to this broker. It must be
